@@ -81,3 +81,15 @@ package net
 //@   modifies topicsAdded
 //@   tags C14
 //@ apply ErrFlow: (*Peer).loadAndPublishReplicators, (*Peer).loadAndPublishP2PCollections
+//@
+//@ // ===== C14: a P2P collection is persisted under the identifier of the topic it is subscribed to (the
+//@ // collection id / schema root), so that a restart subscribes to the same topic again
+//@ func (*Peer).AddP2PCollections
+//@   assert before call#1 NewP2PCollectionKey: arg0 == res(SchemaRoot, 1, 0)
+//@   loop 2 every-iteration call#1 Set
+//@   modifies failed, topicsAdded, repUpdates
+//@   tags C14
+//@ func (*Peer).AddP2PCollections$1
+//@   assert before call#1 addPubSubTopic: arg1 == res(SchemaRoot, 1, 0)
+//@   modifies failed, topicsAdded, repUpdates
+//@   tags C14
